@@ -28,12 +28,16 @@ for ty, tier_m, tier_d in [("dual64", "quick", "quick"), ("dual2_64", "quick", "
         f"{ty}: (a/b)*b == a exactly, part by part", GRID, tier_d)
 add("c02_grid", "c02_grid_mul_dual3_64", "C02",
     "dual3_64: every part of a*b equals the Leibniz formula (binomial weights 1,2,1 / 1,3,3,1) in i64", GRID)
-for part, tier in [("re", "quick"), ("v1", "quick"), ("v2", "thorough"), ("v3", "thorough")]:
+for part, tier in [("re", "quick"), ("v1", "quick"), ("v2", "thorough")]:
     add("c02_grid", f"c02_grid_div_dual3_64_{part}", "C02",
         f"dual3_64: part {part} of (a/b)*b == that part of a exactly", GRID, tier)
+add("c02_grid", "c02_grid_div_dual3_64_v3_small", "C02",
+    "dual3_64: part v3 of (a/b)*b == a.v3 exactly (full grid: timeout > 2400 s)",
+    "BOUNDED GRID (REDUCED): every part an integer in -2..=2; divisor real part in {+-1,+-2,+-0.5}; loop-free",
+    "thorough")
 add("c02_grid", "c02_grid_mul_hyperhyperdual64", "C02",
     "hyperhyperdual64: all 8 parts of a*b equal the Leibniz formula in i64", GRID, "thorough")
-for part in ["re", "eps1", "eps2", "eps3", "eps1eps2", "eps1eps3", "eps2eps3", "eps1eps2eps3"]:
+for part in ["re", "eps1", "eps2", "eps3"]:  # 2nd/3rd-order parts: timeout > 2400 s, not covered
     add("c02_grid", f"c02_grid_div_hyperhyperdual64_{part}", "C02",
         f"hyperhyperdual64: part {part} of (a/b)*b == that part of a exactly", GRID, "thorough")
 
@@ -65,15 +69,15 @@ for m in (1, 2, 3):
         add("c05_drivers", f"c05_jacobian_m{m}_n{n}", "C05",
             f"jacobian/try_jacobian, {m} outputs, {n} inputs: seed x[i] = (x_i, e_i); result.0[i] = out[i].re, result.1[(i,j)] = out[i].eps[j] (absent -> 0); Err passes; infallible == try_",
             f"static m = {m}, n = {n}; " + UNW,
-            "quick" if (m, n) in [(1, 1), (1, 2), (2, 1)] else "thorough")
+            "quick" if (m, n) in [(1, 1), (1, 2), (2, 1), (2, 2)] else "thorough")
 for n in (1, 2, 3):
     add("c05_drivers", f"c05_hessian_n{n}", "C05",
         f"hessian/try_hessian, static n={n}: x[i].v1 = e_i^T present, v2 absent; result (re, v1^T as column, v2), absent -> zeros; Err passes",
-        f"static n = {n}; " + UNW, "quick" if n == 1 else "thorough")
+        f"static n = {n}; " + UNW, "quick" if n <= 2 else "thorough")
 for m, n in [(1, 1), (2, 1), (1, 2), (2, 2), (3, 2), (2, 3)]:
     add("c05_drivers", f"c05_partial_hessian_m{m}_n{n}", "C05",
         f"partial_hessian/try_, |x|={m}, |y|={n}: x[i].eps1 = e_i, y[j].eps2 = e_j^T, others absent; result (re, eps1, eps2^T, eps1eps2), absent -> zeros; Err passes",
-        f"static m = {m}, n = {n}; " + UNW, "quick" if (m, n) == (1, 1) else "thorough")
+        f"static m = {m}, n = {n}; " + UNW, "quick" if (m, n) in [(1, 1), (1, 2), (2, 1)] else "thorough")
 for n in (1, 2, 3):
     add("c05_drivers", f"c05_gradient_dyn_n{n}", "C05",
         f"gradient/try_gradient on DVector (Dyn) of length {n}: seed and result as for static; Err passes (seed inspected inside the closure)",
@@ -94,12 +98,12 @@ for ty in ["dual64", "dual2_64", "dual3_64", "hyperdual64", "hyperhyperdual64", 
     add("c06_pred", f"c06_abs_signum_{ty}", "C06",
         f"{ty}: Signed::abs = self if re>0 else -self (all parts bit-exact); signum = +-1 with zero/absent parts",
         "loop-free (vector sizes fixed); domain: re not NaN and re != +-0 (ASSUMED), derivative parts all bit patterns",
-        "quick" if "svec" not in ty else "thorough")
+        "quick")
 for ty in ["dual64", "dual2_64", "dualsvec64_2", "dual2svec64_2"]:
     add("c06_pred", f"c06_minmax_clamp_{ty}", "C06",
         f"{ty}: RealField::min/max/clamp return bit-for-bit one operand (all parts) chosen by real parts only",
         "loop-free (vector sizes fixed); real parts not NaN (ASSUMED), everything else all bit patterns",
-        "quick" if ty != "dual2svec64_2" else "thorough")
+        "quick")
 CVC = "none (loop-free, full f64 domain; NaN results compared as 'both NaN'); solver cvc5 (SAT back ends do not terminate)"
 for ty in ["dual64", "dual2_64", "hyperdual64"]:
     add("c06_nonint", f"c06_nonint_{ty}", "C06",
@@ -125,20 +129,20 @@ for ty in TYS11:
         "none (constants)")
     add("c11_field", f"c11_const_frac_pi_2_{ty}", "C11",
         f"{ty}: RealField::frac_pi_2().re is bit-equal to std FRAC_PI_2, parts zero/absent",
-        "none (constants)", expect="fail")
+        "none (constants)")  # failed before the fix of /repo (frac_pi_2 returned FRAC_PI_4)
 for ty in ["dual64", "dual2_64", "dualsvec64_1", "dual2svec64_1", "dualsvec64_2", "dual2svec64_2"]:
     add("c11_field", f"c11_select_{ty}", "C11",
         f"{ty}: ComplexField::abs, copysign return +-x (all parts bit-exact) by sign bits of real parts; min/max/clamp return one operand",
         "loop-free (vector sizes fixed); real parts not NaN (ASSUMED), signed zeros included",
-        "quick" if not ty.endswith("_2") else "thorough")
+        "quick" if ty != "dual2svec64_2" else "thorough")
     add("c11_field", f"c11_simd_{ty}", "C11",
         f"{ty}: SimdValue LANES==1: splat/extract(0) identity incl. absent parts; replace(0,y) then extract(0) == y (absent == zeros); select(true/false) picks a/b exactly",
         "none (loop-free over fixed sizes, all bit patterns, derivative groups symbolically absent)",
-        "quick" if not ty.endswith("_2") else "thorough")
+        "quick" if ty != "dual2svec64_2" else "thorough")
 
 # ------------------------------------------------------------------ C13
 NANB = "fixed sizes; all bit patterns, NaN parts compared as 'NaN maps to NaN'"
-FAM = [("dual", "quick"), ("dual2", "quick"), ("dualsvec_1", "quick"), ("dualsvec_2", "thorough"),
+FAM = [("dual", "quick"), ("dual2", "quick"), ("dualsvec_1", "quick"), ("dualsvec_2", "quick"),
        ("dual2svec_1", "thorough"), ("dual2svec_2", "thorough")]
 for ty, tier in FAM:
     add("c13_convert", f"c13_widen_{ty}", "C13",
@@ -153,14 +157,29 @@ for ty, tier in FAM:
     add("c13_convert", f"c13_floats_{ty}", "C13",
         f"{ty}: SupersetOf<f64>/<f32>: from_subset(f) = constant (parts zero), to_subset_unchecked = real part, is_in_subset true, to_subset agrees",
         NANB, tier, flags=NOOVF)
+DYN = "BOUNDED: Dyn storage with derivative length fixed to 2 (or absent); loops unwound (kani::unwind(4)); all bit patterns"
+add("c13_convert", "c13_widen_dualdvec_n2_present", "C13",
+    "DualDVec (heap, run-time dims), eps present: f32->f64 to_superset exact per part; from_superset_unchecked gives x back; default memory-safety checks on the unsafe map_borrowed loops",
+    DYN, "thorough")
+add("c13_convert", "c13_widen_dualdvec_absent", "C13",
+    "DualDVec, eps absent: to_superset / from_superset_unchecked keep it absent, re exact",
+    DYN, "thorough")
+add("c13_convert", "c13_from_superset_down_dualdvec_n2_present", "C13",
+    "DualDVec f64->f32, eps present: from_superset(y).is_some() == is_in_subset(y); parts are the `as` cast (try_map_borrowed with run-time dims)",
+    DYN, "thorough", flags=NOOVF)
+add("c13_convert", "c13_from_superset_down_dualdvec_absent", "C13",
+    "DualDVec f64->f32, eps absent: from_superset(y).is_some() == is_in_subset(y); absent stays absent",
+    DYN, "thorough", flags=NOOVF)
 add("c13_convert", "c13_floats_absent_dualsvec_2", "C13",
     "DualSVec: from_subset(float) has *absent* eps", "none", "quick")
 add("c13_convert", "c13_floats_absent_dual2svec_2", "C13",
     "Dual2SVec: from_subset(float) has *absent* v1, v2", "none", "quick")
 for ty, suffix, expect, tier in [("dual", "", "pass", "quick"), ("dual2", "", "pass", "quick"),
-                                 ("dualsvec_2", "_present", "pass", "thorough"), ("dual2svec_2", "_present", "pass", "thorough"),
-                                 ("dualsvec_1", "_absent", "fail", "quick"), ("dual2svec_1", "_absent", "fail", "thorough"),
-                                 ("dualsvec_2", "_absent", "fail", "thorough"), ("dual2svec_2", "_absent", "fail", "thorough")]:
+                                 ("dualsvec_2", "_present", "pass", "quick"), ("dual2svec_2", "_present", "pass", "thorough"),
+                                 # the *_absent harnesses failed before the fix of /repo (try_map_borrowed
+                                 # returned None for an absent derivative while is_in_subset said true)
+                                 ("dualsvec_1", "_absent", "pass", "quick"), ("dual2svec_1", "_absent", "pass", "quick"),
+                                 ("dualsvec_2", "_absent", "pass", "quick"), ("dual2svec_2", "_absent", "pass", "thorough")]:
     dom = {"": "all parts symbolic", "_present": "derivative groups PRESENT (assumed)", "_absent": "derivative groups symbolically absent/present"}[suffix]
     for d, what, fl in [("down", "f64->f32", NOOVF), ("same", "f64->f64 and f32->f32 (+ checked round trip)", ""),
                         ("up", "f32->f64 (+ checked round trip f32->f64->f32)", NOOVF)]:
